@@ -26,6 +26,13 @@ try:
             bad = (msg, info[var])
     results.append(dict(name="C15/bounded:render_special_characters", kind="bounded", status="violation" if bad else "ok", evaluations=evals, distinct=evals,
                         bound="9 singleton special strings + %d random mixtures of 0..3 lines" % n, exhaustive=False, detail=bad[0] if bad else "", input=bad[1] if bad else None))
+    if os.environ.get("VERIF_TIER", "quick") == "thorough":
+        # the pigeonhole lemma behind pigeonhole(set, dict) is re-checked by Lean (independent of the SMT transcription)
+        import subprocess
+        lem = os.path.join(os.path.dirname(os.path.dirname(os.path.abspath(__file__))), "lemmas", "Sets.lean")
+        p = subprocess.run(["lake", "env", "lean", lem], cwd="/opt/veriftools/mathlib4", capture_output=True, text=True, timeout=900)
+        ok = p.returncode == 0 and "error" not in (p.stdout + p.stderr)
+        results.append(dict(name="C15/lemma:lean_sets", kind="static", status="ok" if ok else "undecided", detail=(p.stdout + p.stderr)[-300:]))
 except Exception as e:  # noqa
     results.append(dict(name="C15/template", kind="static", status="undecided", detail="crashed: %r" % (e,)))
 print(json.dumps(dict(results=results)))
